@@ -11,6 +11,7 @@ import (
 	"go/types"
 	"math"
 	"os"
+	"strconv"
 	"strings"
 	"time"
 
@@ -73,6 +74,12 @@ var stubPkgPrefixes = []string{
 }
 
 func (L *Loaded) isStubPkg(path string) bool {
+	// protobuf runtime (reflection-based) is stubbed; wire helpers stay real and
+	// proto.Size/Marshal/Unmarshal/Clone are modelled natively (protomodel.go)
+	if strings.HasPrefix(path, "google.golang.org/protobuf/") {
+		return path != "google.golang.org/protobuf/encoding/protowire" && path != "google.golang.org/protobuf/internal/errors" &&
+			path != "google.golang.org/protobuf/internal/detrand"
+	}
 	for _, p := range stubPkgPrefixes {
 		if path == p || (strings.HasPrefix(path, p) && (strings.HasSuffix(p, "/") || len(path) == len(p) || path[len(p)] == '/')) {
 			return true
@@ -796,6 +803,29 @@ func init() {
 	natives["(*go.uber.org/zap.Logger).Check"] = func(fr *frame, a []value) value { return (*value)(nil) }
 	natives["(*go.uber.org/zap.SugaredLogger).Level"] = nil
 	delete(natives, "(*go.uber.org/zap.SugaredLogger).Level")
+	// reflection is not modelled: TypeOf yields a nil Type (any use of it faults visibly)
+	natives["reflect.TypeOf"] = func(fr *frame, a []value) value { return iface{} }
+	natives["reflect.TypeFor"] = func(fr *frame, a []value) value { return iface{} }
+	enumString := func(fr *frame, a []value) value {
+		if isSym(a[0]) {
+			return "<enum>"
+		}
+		return "ENUM_" + strconv.FormatInt(asInt64(a[0]), 10)
+	}
+	natives["(github.com/libp2p/go-libp2p-kad-dht/pb.Message_MessageType).String"] = enumString
+	natives["(github.com/libp2p/go-libp2p-kad-dht/pb.Message_ConnectionType).String"] = enumString
+	natives["context.WithValue"] = func(fr *frame, a []value) value {
+		parent := a[0].(iface)
+		if parent.t == nil {
+			panic(targetPanic{v: iface{nil, "cannot create context from nil parent"}})
+		}
+		if a[1].(iface).t == nil {
+			panic(targetPanic{v: iface{nil, "nil key"}})
+		}
+		cp := fr.i.prog.ImportedPackage("context")
+		var v value = structure{parent, a[1], a[2]}
+		return iface{t: types.NewPointer(cp.Type("valueCtx").Type()), v: &v}
+	}
 	// ---------------- tracing ----------------
 	startSpan := func(fr *frame, a []value) value {
 		tp := fr.i.prog.ImportedPackage("go.opentelemetry.io/otel/trace")
